@@ -23,9 +23,15 @@ REPLAY = None    # the "replay" object of a replay file when ./check runs with -
 
 def replay_history():
     r = REPLAY
-    if r and "config" in r and "ops" in r:
+    if r and "config" in r and "ops" in r and not replay_is_imp():
         return {"cfg": r["config"], "ops": r["ops"], "accts": hist.accts_from_config(r["config"]), "opts": {}}
     return None
+
+
+def replay_is_imp():
+    """the replay's ops are commands of the imp engine (the dirk binary on a storage directory)"""
+    r = REPLAY
+    return bool(r) and any(o.split()[0] in ("import", "probeatt", "probeprop", "roundtrip", "exportb") for o in r.get("ops", []))
 
 
 def prove(rep, pid):
@@ -736,6 +742,8 @@ def run_imp_scenarios(rep, dh, wd, scen, label="imp"):
     """scen: list of (cfg lines, ops). Runs the dirk binary and the model; diffs; judges imports."""
     from common import run_impl, run_model, build_dirk
     import imp
+    if REPLAY is not None:
+        scen = [(REPLAY["config"], REPLAY["ops"])] if replay_is_imp() and "config" in REPLAY else []
     dirk = build_dirk(wd)
     from concurrent.futures import ThreadPoolExecutor
     jobs = min(12, max(1, len(scen) // 4))
@@ -1484,6 +1492,9 @@ def c03(rep, tier, seed, wd, replay):
     base = os.path.join(wd, "crash")
     os.makedirs(base, exist_ok=True)
     hists = [crash.gen_history(rng.fork(), accts) for _ in range(nh)]
+    if REPLAY is not None and "kill_at_point" in REPLAY:
+        hists, cfg = [REPLAY["ops"]], REPLAY["config"]
+        accts = hist.accts_from_config(cfg)
     for hi, ops in enumerate(hists):
         d = os.path.join(base, "h%d-count" % hi, "dir")
         os.makedirs(os.path.dirname(d), exist_ok=True)
@@ -1498,10 +1509,14 @@ def c03(rep, tier, seed, wd, replay):
         for j in range(n):
             cases.append((hi, j))
 
+    if REPLAY is not None and "kill_at_point" in REPLAY:
+        # the recorded point first, then every other point of that history (what a kill leaves behind can depend on timing)
+        cases = [(0, REPLAY["kill_at_point"])] + [c_ for c_ in cases if c_[1] != REPLAY["kill_at_point"]]
+
     def one(case):
-        hi, j = case
+        hi, j = case[0], case[1]
         ops = hists[hi]
-        d = os.path.join(base, "h%d-k%d" % (hi, j), "dir")
+        d = os.path.join(base, "h%d-k%d%s" % (hi, j, "-r%d" % case[2] if len(case) > 2 else ""), "dir")
         os.makedirs(os.path.dirname(d), exist_ok=True)
         out, rc, err = crash.run_child(dh, d, cfg + ops, kill_at=j)
         lines = out[1:]          # drop "ok" of begin
@@ -1514,6 +1529,11 @@ def c03(rep, tier, seed, wd, replay):
         return (hi, j, k, lines, rel, probes, cont, out2[1:], rc, rc2, err2)
     with ThreadPoolExecutor(max_workers=12) as ex:
         results = list(ex.map(one, cases))
+    if REPLAY is not None and "kill_at_point" in REPLAY:
+        # what a SIGKILL leaves behind can depend on timing (e.g. a write still in flight): repeat the recorded point
+        # (under the same kind of load as the full run: many kill cycles at once)
+        with ThreadPoolExecutor(max_workers=12) as ex:
+            results = list(ex.map(one, [(0, REPLAY["kill_at_point"], q_) for q_ in range(36)])) + results
     # model: candidate states
     ml = []
     for (hi, j, k, lines, rel, probes, cont, out2, rc, rc2, err2) in results:
@@ -1735,9 +1755,14 @@ def c20(rep, tier, seed, wd, replay):
     found = False
     # (b)
     hs = grpc_histories(rng, keys, *tier_sizes(tier, (16, 40), (150, 80)))
+    if REPLAY is not None:
+        rh = replay_history()
+        hs = [rh] if rh else []
     crashed, err = engines.exec_histories(dh, wd, hs)
     if crashed:
-        rep.violation("crash-via-grpc", "the instance died while serving a request through the gRPC API", {"stderr": err[-1500:]})
+        dead = [h for h in hs if len(h.get("impl", [])) < len(h["ops"])]
+        rep.violation("crash-via-grpc", "the instance died while serving a request through the gRPC API",
+                      dict({"stderr": err[-1500:]}, **({"config": dead[0]["cfg"], "ops": dead[0]["ops"][:len(dead[0]["impl"]) + 1]} if dead else {})))
         found = True
     first_bad = None
     for h in hs:
@@ -1747,6 +1772,10 @@ def c20(rep, tier, seed, wd, replay):
     rep.cov["grpc_histories"] = len(hs)
     # (c)
     msgs = wire.corpus() + wire.gen_messages(rng, tier_sizes(tier, 500, 8000), big=(tier == "thorough"))
+    if REPLAY is not None:
+        msgs = [(REPLAY["method"], REPLAY["client"], bytes.fromhex(REPLAY["payload_hex"]), "replay")] if "payload_hex" in REPLAY else []
+        if "prelude" in REPLAY:
+            msgs = [(m_, c_, bytes.fromhex(p_), "replay-prelude") for m_, c_, p_ in REPLAY["prelude"]] + msgs
     i = 0
     restarts = 0
     total = 0
@@ -1778,8 +1807,12 @@ def c20(rep, tier, seed, wd, replay):
         if dead_at is not None:
             m, c, pl, tag = chunk[dead_at]
             reason = [l for l in stderr_tail.splitlines() if "fatal error" in l or l.startswith("panic")]
+            # state-changing messages this daemon had accepted before (account creation): needed to replay a crash that
+            # depends on them
+            prelude = [[m2, c2, p2.hex()] for (m2, c2, p2, t2), o2 in zip(chunk[:dead_at], out[:dead_at])
+                       if m2.endswith("/Generate") and o2.startswith("resp")][-5:]
             rep.violation("daemon-crash-" + tag, "the daemon stopped answering after this message (%s)" % (reason[0] if reason else "no longer alive"),
-                          {"method": m, "client": c, "payload_hex": pl.hex(), "stderr": stderr_tail[-1200:]})
+                          {"method": m, "client": c, "payload_hex": pl.hex(), "prelude": prelude, "stderr": stderr_tail[-1200:]})
             found = True
             i += dead_at + 1
             restarts += 1
@@ -1788,7 +1821,8 @@ def c20(rep, tier, seed, wd, replay):
     rep.cov["wire_messages"] = total
     rep.cov["wire_messages_answered_with_a_response"] = answered
     rep.cov["traces_validated_against_impl"] = total + len(hs)
-    rep.sample({"message": {"method": msgs[10][0], "client": msgs[10][1], "payload_hex": msgs[10][2].hex()[:120]}})
+    if len(msgs) > 10:
+        rep.sample({"message": {"method": msgs[10][0], "client": msgs[10][1], "payload_hex": msgs[10][2].hex()[:120]}})
     if first_bad is not None:
         h, (i_, op, il, ml) = first_bad
         rep.broken.append(("correspondence:handlers(model handler layer vs real gRPC API)",
@@ -1832,6 +1866,9 @@ def c19(rep, tier, seed, wd, replay):
     must = dict(zip(kinds, run_model(["tlsmodel tls.RequireAndVerifyClientCert %s" % k for k in kinds])))
     found = False
     first_bad = None
+    if REPLAY is not None:
+        rows = [r_ for r_ in rows if (r_[0], r_[1], r_[2]) == (REPLAY.get("credential"), REPLAY.get("method"), REPLAY.get("wallet"))]
+        rep.cov["replay"] = "tls engine row %s" % (rows[0] if rows else "not present")
     for kind, meth, wallet, res in rows:
         rep.count("%s|%s|%s" % (kind, meth, wallet), True)
         rep.dist("credential", kind.split(":")[0])
@@ -1913,11 +1950,11 @@ def c14(rep, tier, seed, wd, replay):
             rep.dist("pair", kind)
             rep.count("%s|%s|%s" % (tag, kind, d1[1][:80]), len(signed1) >= t or len(signed2) >= t)
             jl.append("jquorum %d %d %d" % (t, len(signed1), len(signed2)))
-            jm.append((tag, kind, lines, r_["impl"], signed1, signed2))
+            jm.append((tag, kind, lines[:max(i1 + i2) + 1] if i1 + i2 else lines, r_["impl"], signed1, signed2))
             both = set(signed1) & set(signed2)
             if both:
                 rep.violation("instance-signed-both", "one instance released partial signatures for both of two conflicting duties",
-                              {"scenario": tag, "kind": kind, "instances": sorted(both), "lines": [lines[i] for i in i1 + i2]})
+                              {"scenario": tag, "kind": kind, "instances": sorted(both), "lines": lines[:max(i1 + i2) + 1], "pair_lines": [lines[i] for i in i1 + i2]})
                 found = True
             # combine partial signatures of a duty that reached the threshold
             for idxs, signed in ((i1, signed1), (i2, signed2)):
@@ -1935,7 +1972,7 @@ def c14(rep, tier, seed, wd, replay):
         if o.strip() != "ok":
             tag, kind, lines, impl, s1, s2 = meta
             rep.violation("both-reach-threshold", "two conflicting duties both collected a threshold of partial signatures",
-                          {"scenario": tag, "kind": kind, "signed_first": s1, "signed_second": s2})
+                          {"scenario": tag, "kind": kind, "signed_first": s1, "signed_second": s2, "lines": lines})
             found = True
             break
     if comb:
@@ -2352,4 +2389,105 @@ THEOREMS.update({
                                "Dirk.C06_batch_fetch_fault", "Dirk.C06_shape_atts", "Dirk.C06_shape_msign"]),
 })
 
+HIST_REPLAY = ("C01", "C02", "C03", "C05", "C06", "C07", "C09", "C10", "C11", "C19", "C20")     # their own engines take a replay history / probe
+
+
+def generic_replay(rep, pid, tier, seed, wd):
+    """./check Cxx --replay FILE for the engines without a replay path of their own: the stored input is executed again
+    on the implementation (rebuilt from /repo) and on the Lean model through the engine it came from; the replay counts as
+    reproduced when the implementation crashes or stops answering, when it differs from the proven model at a line the
+    property's comparison looks at, or when one of the generic judges (slashable pair among released signatures, signature
+    not over the model's root, lifecycle judge) objects."""
+    from common import run_impl, run_model
+    prove(rep, pid)
+    dh = build_harness(wd)
+    r = REPLAY
+    env = {"GOMAXPROCS": str(r["gomaxprocs"])} if r.get("gomaxprocs") else None
+    if "lines" in r:                                             # dkg family
+        lines = r["lines"]
+        impl, crashed, err = run_impl(dh, wd, lines, engine="dkg", timeout=900)
+        model = run_model(["reset"] + lines)
+        rep.cov["replay"] = "dkg engine, %d lines" % len(lines)
+        if crashed or len(impl) < len(lines):
+            rep.violation("replay-crash", "an instance process died or stopped answering on the replayed input", {"lines": lines, "impl": impl, "stderr": err[-1500:]})
+            return
+        diff = [(i, l, impl[i], model[i]) for i, l in enumerate(lines)
+                if l.split()[0] in DKG_DIFF_OPS + DKG_DIFF_OPS_C14 and i < len(model) and hist.states_of(impl[i].split()[0] if l.startswith("gen") else impl[i]) != hist.states_of(model[i].split()[0] if l.startswith("gen") else model[i])]
+        jl = []
+        for i, l in enumerate(lines):
+            f = l.split()
+            if f[0] == "cluster":
+                jl.append("jlife-reset %s" % f[2])
+            elif f[0] == "sleep":
+                jl.append("jlife-sleep %s" % f[1])
+            elif f[0] in ("hprepare", "hexecute", "hcontribute", "hcommit", "habort"):
+                jl.append("jlife %s %s %s %s" % (f[0][1:], f[1], f[3], "ok" if impl[i].strip() == "ok" else "no"))
+        verdicts = [o.strip() for o in run_model(jl) if o.strip() not in ("ok",)] if jl else []
+        for i, l in enumerate(lines):
+            f = l.split()
+            if (f[0] in ("use", "recover") and not impl[i].startswith("ok")) or (f[0] == "relations" and impl[i].startswith("bad")):
+                verdicts.append("%s: %s" % (f[0], impl[i][:80]))
+        for i, l in enumerate(lines):
+            print("  %-60s impl=%-40s model=%s" % (l[:60], impl[i][:40], model[i][:40] if i < len(model) else "?"))
+        if diff or verdicts:
+            rep.violation("replay-differs", "on the replayed input the implementation departs from the proven model" + (" / lifecycle judge: " + verdicts[0] if verdicts else ""),
+                          {"lines": lines, "first_difference": {"line": diff[0][1], "impl": diff[0][2], "model": diff[0][3]} if diff else None, "judge": verdicts[:3]})
+        return
+    if "config" in r and ("ops" in r or "scenario" in r):       # run engine: histories, listings, concurrent scenarios
+        body = r.get("ops") or r.get("scenario")
+        lines = ["reset"] + r["config"] + body
+        impl, crashed, err = run_impl(dh, wd, lines, env=env, timeout=900)
+        conc_ = "scenario" in r
+        rep.cov["replay"] = "run engine, %d lines%s" % (len(body), " (concurrent)" if conc_ else "")
+        if any(o.startswith("TIMEOUT") for o in impl):
+            rep.violation("replay-deadlock", "concurrent requests did not all complete on the replayed scenario: " + [o for o in impl if o.startswith("TIMEOUT")][0], dict(r))
+            return
+        if crashed or len(impl) < len(body) + 1:
+            rep.violation("replay-crash", "the harness process died on the replayed input", {"config": r["config"], "ops": body, "stderr": err[-1500:]})
+            return
+        accts = hist.accts_from_config(r["config"])
+        if conc_:
+            import conc
+            go_i = [i for i, l in enumerate(body) if l.startswith("go ")]
+            ops_seq, impl_seq = [], []
+            for i, l in enumerate(body):
+                if l.split()[0] in SIGN_KINDS:
+                    ops_seq.append(l); impl_seq.append(impl[1 + i])
+            if go_i:
+                res = conc.parse_go(impl[1 + go_i[0]])
+                cops = [l.split(None, 2)[2] if l.startswith("cop ") else l.split(None, 3)[3] for l in body if l.startswith("cop")]
+                ops_seq += cops
+                impl_seq += [x[2] for x in res]
+            h = {"cfg": r["config"], "ops": ops_seq, "impl": impl_seq, "accts": accts}
+            bad, _ = engines.judge_slashing([h], orderfree=True)
+            if bad:
+                rep.violation("replay-slashable", "the replayed concurrent scenario released a slashable pair (%s)" % bad[0][-1], dict(r, observed=impl_seq))
+            else:
+                print("  all %d requests completed; no slashable pair among the released signatures" % len(impl_seq))
+            return
+        model = run_model(lines)
+        h = {"cfg": r["config"], "ops": body, "impl": impl[1:], "model": model[1:], "accts": accts}
+        h["bad"] = hist.compare_lines(body, h["impl"], h["model"])
+        for i, l in enumerate(body):
+            print("  %-50s impl=%-50s model=%s" % (l[:50], h["impl"][i][:50] if i < len(h["impl"]) else "?", h["model"][i][:50] if i < len(h["model"]) else "?"))
+        bad, _ = engines.judge_slashing([h])
+        badsig, _ = engines.sigcheck(dh, [h])
+        if h["bad"] or bad or badsig:
+            rep.violation("replay-differs", "on the replayed input the implementation departs from the proven model or a judge objects",
+                          {"config": r["config"], "ops": body, "difference": [list(b) for b in h["bad"][:2]], "slashing_judge": [b[-1] for b in bad[:2]], "bad_signature_positions": badsig[:2]})
+        return
+    print("REPLAY property=%s: this replay file (%s) carries no re-executable input for a generic engine; run `./check %s` itself" % (pid, ", ".join(sorted(r)), pid))
+    rep.cov["replay"] = "not re-executable"
+
+
+def _with_replay(pid, fn):
+    def run(rep, tier, seed, wd, replay):
+        if REPLAY is not None and pid not in HIST_REPLAY:
+            return generic_replay(rep, pid, tier, seed, wd)
+        return fn(rep, tier, seed, wd, replay)
+    return run
+
+
 CHECKS = {"C01": c01, "C02": c02, "C05": c05, "C06": c06, "C07": c07, "C08": c08, "C09": c09, "C10": c10, "C11": c11, "C04": c04, "C15": c15, "C03": c03, "C12": c12, "C13": c13, "C16": c16, "C17": c17, "C14": c14, "C18": c18, "C19": c19, "C20": c20}
+
+CHECKS = {k: _with_replay(k, v) for k, v in CHECKS.items()}
